@@ -68,6 +68,43 @@ impl SessionTracker {
     }
 }
 
+#[cfg(feature = "verif-hooks")]
+pub(crate) mod verif_tracker {
+    /// The production `SessionTracker` with observable contents
+    pub struct VerifTracker {
+        inner: super::SessionTracker,
+        // keeps the receivers alive so that senders stay open
+        receivers: Vec<tokio::sync::mpsc::Receiver<super::ServerCommand>>,
+    }
+
+    impl VerifTracker {
+        /// `SessionTracker::new`
+        pub fn new(max_sessions: usize) -> Self {
+            Self {
+                inner: super::SessionTracker::new(max_sessions),
+                receivers: Vec::new(),
+            }
+        }
+
+        /// `SessionTracker::add`, returns the assigned id
+        pub fn add(&mut self) -> u128 {
+            let (tx, rx) = tokio::sync::mpsc::channel(1);
+            self.receivers.push(rx);
+            self.inner.add(tx)
+        }
+
+        /// `SessionTracker::remove`
+        pub fn remove(&mut self, id: u128) {
+            self.inner.remove(id)
+        }
+
+        /// ids of the live sessions in ascending order
+        pub fn ids(&self) -> Vec<u128> {
+            self.inner.sessions.keys().copied().collect()
+        }
+    }
+}
+
 #[derive(Clone)]
 pub(crate) enum TcpServerConnectionHandler {
     Tcp,
